@@ -506,7 +506,7 @@ def gen_cases(ctx: fw.Ctx):
             if emit(c):
                 yield c
     # 6. random values
-    n_random = 12000 if quick else 150000
+    n_random = 12000 if quick else 100000
     max_depth = 2 if quick else 4
     for _ in range(n_random):
         d = ctx.rng.randint(1, max_depth)
@@ -553,9 +553,28 @@ def run(ctx: fw.Ctx):
         "finite floats only; a dict inside a list is outside the domain (the code raises ValueError)",
     ]
     t0 = time.time()
-    cases = list(gen_cases(ctx))
-    ctx.count("cases", len(cases))
+    state = {"bad": 0, "spec_bad": 0, "flag_bad": 0, "first": True}
+    batch = []
+    for c in gen_cases(ctx):
+        batch.append(c)
+        if len(batch) >= BATCH:
+            run_batch(ctx, batch, state)
+            batch = []
+    if batch or state["first"]:
+        run_batch(ctx, batch, state)
+    ctx.count("correspondence_disagreements", state["bad"])
+    ctx.count("spec_corpus", len(SPEC_CORPUS))
+    ctx.count("spec_disagreements", state["spec_bad"])
+    ctx.count("side_condition_disagreements", state["flag_bad"])
+    ctx.count("gen_seconds", int(time.time() - t0))
 
+
+BATCH = 40000
+
+
+def run_batch(ctx: fw.Ctx, cases, state):
+    """Correspondence + observation for one batch of cases (bounded memory)."""
+    ctx.count("cases", len(cases))
     # ---------------- correspondence: real rebuild vs Lean model, and SPEC reader vs tree-sitter reader
     reqs = [case_request(c) for c in cases]
     impl = []
@@ -564,14 +583,15 @@ def run(ctx: fw.Ctx):
             impl.append(["ok", render_real(c)[1]])
         except Exception as exc:  # noqa: BLE001
             impl.append(["err", exc_class(exc)])
-    replies = ctx.driver.ask_many(reqs + [["readdata", hx(t)] for t in SPEC_CORPUS])
-    ctx.corr_checked = len(reqs)
-    bad = spec_bad = flag_bad = 0
+    corpus = SPEC_CORPUS if state["first"] else []
+    state["first"] = False
+    replies = ctx.driver.ask_many(reqs + [["readdata", hx(t)] for t in corpus])
+    ctx.corr_checked += len(reqs)
     for c, rq, im, got in zip(cases, reqs, impl, replies):
         model_text = unhx(got[1]) if got and got[0] == "ok" else None
         if im[0] != "ok" or model_text != im[1]:
-            bad += 1
-            if bad <= 5:
+            state["bad"] += 1
+            if state["bad"] <= 5:
                 ctx.tie_break("correspondence", f"rebuild of {c['context']} disagrees with the model on {c!r}",
                               request=rq, implementation=im, model=model_text)
             continue
@@ -579,8 +599,8 @@ def run(ctx: fw.Ctx):
         flags = [x == "t" for x in got[3:6]]
         want_ok = not case_culprits(c)
         if flags != [True, want_ok, want_ok]:
-            flag_bad += 1
-            if flag_bad <= 3:
+            state["flag_bad"] += 1
+            if state["flag_bad"] <= 3:
                 ctx.tie_break("spec", f"Lean (inDomain, readable, avoids) = {flags} but the harness finds culprits "
                               f"{sorted(case_culprits(c))} in {c!r}")
         # SPEC validation: whatever the Lean reader reads, the tree-sitter reader reads too
@@ -592,28 +612,26 @@ def run(ctx: fw.Ctx):
             except cstread.NotData:
                 agree = False
             if not agree:
-                spec_bad += 1
-                if spec_bad <= 3:
+                state["spec_bad"] += 1
+                if state["spec_bad"] <= 3:
                     ctx.tie_break("spec", f"Lean readData and the tree-sitter reader disagree on {im[1]!r}",
                                   lean=got[2], text=im[1])
             ctx.count("spec_reads_some")
         else:
             ctx.count("spec_reads_none")
-    for t, got in zip(SPEC_CORPUS, replies[len(reqs):]):
+    for t, got in zip(corpus, replies[len(reqs):]):
         if got != "none":
             try:
                 agree = cstread.same_data(dec_data(got[1]), cstread.read_data(t))
             except cstread.NotData:
                 agree = False
             if not agree:
-                spec_bad += 1
+                state["spec_bad"] += 1
                 ctx.tie_break("spec", f"Lean readData accepts {t!r} but the tree-sitter reader does not read the same data",
                               lean=got)
+        else:
+            ctx.count("spec_corpus_rejected")
     ctx.count("correspondence_requests", len(reqs))
-    ctx.count("correspondence_disagreements", bad)
-    ctx.count("spec_corpus", len(SPEC_CORPUS))
-    ctx.count("spec_disagreements", spec_bad)
-    ctx.count("side_condition_disagreements", flag_bad)
 
     # ---------------- observation on the implementation; Lean's verdict must match where it says `some`
     for c, got in zip(cases, replies):
@@ -623,7 +641,6 @@ def run(ctx: fw.Ctx):
         if ok and got and got[0] == "ok" and got[2] == "none":
             # implementation passes, but the SPEC reader rejects the model's text: SPEC too strict
             ctx.tie_break("spec", f"oracle accepts the output for {c!r} but Lean readData gives none", text=unhx(got[1]))
-    ctx.count("gen_seconds", int(time.time() - t0))
 
 
 def search(ctx: fw.Ctx):
